@@ -308,6 +308,7 @@ def large_graphs():
         out.append((f"K{k}", k, [(i, j, (a * i * j + b * (i + j)) % m + 1) for i in range(k) for j in range(i + 1, k)]))
     # dense graphs on which a lazy Prim queue holds several hundred entries (one per crossing edge ever seen)
     out.append(("K36_quadratic_weights", 36, [(i, j, 1 + (i * i + 3 * j * j + i * j) % 97) for i in range(36) for j in range(i + 1, 36)]))
+    out.append(("K64_quadratic_weights", 64, [(i, j, 1 + (i * i + 3 * j * j + i * j) % 997) for i in range(64) for j in range(i + 1, 64)]))
     out.append(("K60_distance_weights", 60, [(i, j, j - i) for i in range(60) for j in range(i + 1, 60)]))
     out.append(("three_nodes_270_parallel_edges", 3, [(0, 1, 1000 - k) for k in range(130)] + [(1, 2, 500 + (k * 7) % 131) for k in range(130)] + [(0, 2, 1 + k) for k in range(10)]))
     out.append(("two_K6_and_isolated", 13, [(i, j, (i + j) % 4 + 1) for i in range(6) for j in range(i + 1, 6)] + [(6 + i, 6 + j, (i * j) % 4 + 1) for i in range(6) for j in range(i + 1, 6)]))
@@ -348,6 +349,9 @@ def _large_chunk(params, lo, hi):
         if n >= 3:
             runs.append(("prim_from_middle", lambda: prim(adj, start=n // 2)))
             runs.append(("prim_from_third", lambda: prim(adj, start=n // 3)))
+        if n >= 30 and len(edges) > 4 * n:  # dense graphs: the queue's history depends on where the search starts
+            for st in range(1, n, 8):
+                runs.append((f"prim_from_{st}", lambda st=st: prim(adj, start=st)))
         for fname, fn in runs:
             r["n"] += 1
             r["nontrivial"] += 1
